@@ -50,7 +50,7 @@ WEAK = {
     "StartAfterAdd": {"I_SetMembersStarted", "I_CallbackStates"}, "NoDialingMark": {"I_OneDialPerID"}, "DialingMarkLeak": {"I_NoOrphanMarks"},
     "ReconnectMarkLeak": {"I_NoOrphanMarks"}, "NoCleanupOnAddFail": {"I_ConnsCovered", "I_ConnsAtRest"}, "InboundLimitOffByOne": {"I_InboundLimit"},
     "UnconditionalCounted": {"I_UnconditionalExempt"}, "CleanupKeepsConn": {"I_ConnsCovered", "I_ConnsAtRest"},
-    "StaleStopGuardDropped": {"I_CallbackOrder", "I_CallbackStates"}, "NoReconnectOnError": {"Redial"},
+    "StaleStopGuardDropped": {"I_StaleErrStopIsNoop"}, "NoReconnectOnError": {"Redial"},
 }
 ASIS = {  # cfg -> invariant TLC must refute on the model of the unchanged tree
     "asis_CallbackOrder": "I_CallbackOrder", "asis_PeerSetCoversActive": "I_PeerSetCoversActive", "asis_MembersHaveConn": "I_MembersHaveConn",
@@ -73,6 +73,16 @@ SLEEP_RUNS = [
                                           {"name": "AccTake", "t": "acc", "a": "-", "b": "-", "n": 0, "id": "-"}] + [S("acc")] * 7 + [S("rec:a")],
     # two failed attempts in a row
     [DIAL("d1", "a"), S("d1", "fail"), S("rec:a"), S("rec:a", "fail"), S("rec:a"), S("rec:a", "fail"), S("rec:a"), S("rec:a", "ok")] + [S("rec:a")] * 7,
+]
+
+INC = lambda i: {"name": "Incoming", "t": "-", "a": i, "b": "-", "n": 0, "id": i}
+TAKE = {"name": "AccTake", "t": "acc", "a": "-", "b": "-", "n": 0, "id": "-"}
+# MaxNumInboundPeers = 0: every inbound peer but an unconditional one is refused
+OPT = lambda c: dict(c, opt=True)
+LIM0_RUNS = [
+    [INC("a"), TAKE, S("acc")] + [OPT(S("acc"))] * 7,          # correct code: refused at once; the optional steps only run on a tree that admits it
+    [INC("b"), TAKE] + [S("acc", "-", "b")] + [OPT(S("acc", "-", "b"))] * 6,
+    [INC("b"), TAKE] + [S("acc", "-", "b")] + [OPT(S("acc", "-", "b"))] * 6 + [OPT(INC("a")), OPT(TAKE), OPT(S("acc"))] + [OPT(S("acc"))] * 7,
 ]
 
 ACT_RE = re.compile(r'act = \[(.*?)\]', re.S)
@@ -186,7 +196,7 @@ def _schedules(ctx, flags, quick):
             if cmds:
                 runs.append(_rundef("%s-%d" % (gname, k), cmds))
     ngraph = len(runs)
-    nsim = 100 if quick else 600
+    nsim = (20 if os.environ.get("SWITCH_FAST") == "1" else 100) if quick else 600   # SWITCH_FAST: development aid
     sp = ctx.spec_copy()
     simd = os.path.join(sp, "switchsim")
     os.makedirs(simd, exist_ok=True)
@@ -310,12 +320,18 @@ def run(ctx):
             wit.append(_rundef("wit_" + k, cmds))
     sleepers = [_rundef("sleep%d" % i, c) for i, c in enumerate(SLEEP_RUNS[:1] if quick else SLEEP_RUNS)]
     allruns = wit + runs + sleepers
-    rundefs = {r["id"]: r for r in allruns}
+    lim0 = [dict(_rundef("lim0-%d" % i, c), maxInbound=0) for i, c in enumerate(LIM0_RUNS)]
+    rundefs = {r["id"]: r for r in allruns + lim0}
+    rows0 = _harness(ctx, binp, lim0, "lim0")
     rows = _harness(ctx, binp, allruns, "main", trials=60000 if quick else 400000, sleep_ok=True)
     if os.environ.get("SWITCH_DUMP"):        # development aid
         with open(os.environ["SWITCH_DUMP"], "w") as f:
             json.dump({"rows": rows, "rundefs": rundefs}, f)
     v = core.validate_traces(ctx, "TMSwitchTrace", rows, cfg=_trace_cfg(ctx, flags), max_events=2500, timeout=1800, label="switch")
+    cfg0 = core.cfg_variant(ctx, "TMSwitchTrace_run.cfg", "TMSwitchTrace_run0.cfg", {"MaxInbound": 0})
+    v0 = core.validate_traces(ctx, "TMSwitchTrace", rows0, cfg=cfg0, label="switch_lim0")
+    v = {"viol": v["viol"] + v0["viol"], "drift": v["drift"] + v0["drift"], "runs": v["runs"] + v0["runs"], "events": v["events"] + v0["events"]}
+    rows = rows + rows0
 
     # ---- 4. verdict --------------------------------------------------------------------------------------------
     verdict = core.Verdict(ctx)
